@@ -43,7 +43,7 @@ Qed.
 Theorem issue_no_panic E kvs0 paths max_decoys cnf header :
   (forall h p, ie_sign E h p <> Panic) -> issue E (JObj kvs0) paths max_decoys cnf header <> Panic.
 Proof.
-  intros Hs. unfold issue. destruct (has_reserved true (JObj kvs0)); [discriminate|].
+  intros Hs. unfold issue. cbn [is_object]. unfold issue_obj. destruct (has_reserved true (JObj kvs0)); [discriminate|].
   destruct (match cnf with Some _ => jhas_ "cnf" (JObj kvs0) | None => false end); [discriminate|].
   destruct (issue_fold E (JObj kvs0) paths (ie_salts E)) as [[c1 ds]|] eqn:Ef; cbn [of_res obind]; [|discriminate].
   pose proof (issue_fold_obj E paths (ie_salts E) (JObj kvs0) c1 ds I Ef) as Ho.
@@ -92,7 +92,20 @@ Proof. intros Ha Ho. unfold disclose_here. destruct j; try reflexivity; exfalso;
 (* repair F19: claims that use a reserved name (_sd or ... anywhere, _sd_alg at the top level) are refused *)
 Theorem issue_reserved_refused E claims paths max_decoys cnf header :
   has_reserved true claims = true -> issue E claims paths max_decoys cnf header = Fail.
-Proof. intros Hr. unfold issue. rewrite Hr. reflexivity. Qed.
+Proof. intros Hr. unfold issue. destruct (is_object claims); [|reflexivity]. unfold issue_obj. rewrite Hr. reflexivity. Qed.
+
+(* repair F29: claims that are not a JSON object are refused - with any paths, decoys, key binding, header *)
+Theorem issue_non_object_refused E claims paths max_decoys cnf header :
+  (forall kvs, claims <> JObj kvs) -> issue E claims paths max_decoys cnf header = Fail.
+Proof. intros Hn. unfold issue. destruct claims; try reflexivity. exfalso. eapply Hn. reflexivity. Qed.
+
+(* ... so that issuing never panics, whatever the claims are *)
+Theorem issue_no_panic_any E claims paths max_decoys cnf header :
+  (forall h p, ie_sign E h p <> Panic) -> issue E claims paths max_decoys cnf header <> Panic.
+Proof.
+  intros Hs. destruct claims; try (unfold issue; cbn [is_object]; discriminate).
+  apply issue_no_panic. exact Hs.
+Qed.
 
 (* repair F20: paths that lead into digest bookkeeping *)
 Lemma build_disclosure_reserved_token E claims p salt : reserved_token p = true -> build_disclosure E claims p salt = Err.
@@ -105,4 +118,4 @@ Proof. intros Hp Hn Hd. unfold disclose_here. cbn. rewrite Hp, Hn, Hd. reflexivi
 (* repair F21: a cnf claim of the caller together with required key binding is refused *)
 Theorem issue_own_cnf_refused E claims paths max_decoys k header :
   jhas_ "cnf" claims = true -> issue E claims paths max_decoys (Some k) header = Fail.
-Proof. intros Hc. unfold issue. destruct (has_reserved true claims); [reflexivity|]. rewrite Hc. reflexivity. Qed.
+Proof. intros Hc. unfold issue. destruct (is_object claims); [|reflexivity]. unfold issue_obj. destruct (has_reserved true claims); [reflexivity|]. rewrite Hc. reflexivity. Qed.
